@@ -99,6 +99,9 @@ type Scenario struct {
 	Stutter *Stutter `json:"stutter,omitempty"`
 }
 
+// SilenceUs is the pause before Shutdown after which a free-running writer must have written everything.
+const SilenceUs = 2_000_000
+
 // Stutter parameters: after DelayUs, N times { stop for StopMs; run for RunUs }.
 type Stutter struct {
 	DelayUs int `json:"delay_us"`
